@@ -58,8 +58,9 @@ def make_stack(kind, default_noreply=True, key_prefix=b"", **kw):
     from pymemcache.client.retrying import RetryingClient
     net = fakesock.FakeNet()
     srv = net.add_server(("mc1", 11211))
-    opts = dict(socket_module=net, default_noreply=default_noreply, key_prefix=key_prefix, connect_timeout=3,
-                timeout=7, **kw)
+    opts = dict(socket_module=net, default_noreply=default_noreply, key_prefix=key_prefix)
+    opts.update({"connect_timeout": 3, "timeout": 7})
+    opts.update(kw)
     if kind == "client":
         cl = Client(("mc1", 11211), **opts)
     elif kind == "pooled":
@@ -67,7 +68,7 @@ def make_stack(kind, default_noreply=True, key_prefix=b"", **kw):
     elif kind in ("hash", "hashpooled"):
         cl = HashClient([("mc1", 11211)], use_pooling=(kind == "hashpooled"), **opts)
     elif kind == "retrying":
-        cl = RetryingClient(Client(("mc1", 11211), **opts), attempts=2)
+        cl = RetryingClient(Client(("mc1", 11211), **opts), attempts=1)
     else:
         raise ValueError(kind)
     return net, srv, cl
@@ -127,10 +128,51 @@ def do_op(cl, ev, default_noreply, variant, kind="client"):
     return enc_result(r, keymap)
 
 
-def replay_history(kind, hist, variant, **stackkw):
+def canon_cmd(c):
+    import hashlib
+    out = {}
+    for k, v in sorted(c.items()):
+        if k in ("raw",):
+            continue
+        if isinstance(v, bytes):
+            out[k] = ("%d:" % len(v) + hashlib.sha256(v).hexdigest()[:12]) if k == "data" else v.decode("latin1")
+        elif isinstance(v, list):
+            out[k] = [x.decode("latin1") if isinstance(x, bytes) else x for x in v]
+        elif isinstance(v, bool):
+            out[k] = v
+        elif v is None:
+            out[k] = "none"
+        else:
+            out[k] = str(v)
+    return out
+
+
+def conn_info(log):
+    """socket options / timeouts of the connection activity of one call"""
+    out = []
+    for e in log:
+        if e["e"] == "tmo":
+            out.append(["tmo", e["v"]])
+        elif e["e"] == "opt":
+            out.append(["opt", e["name"]])
+        elif e["e"] == "wrap":
+            out.append(["wrap", 0])
+        elif e["e"] == "connect":
+            out.append(["connect", e["tmo"] if isinstance(e["tmo"], (int, float)) else -2])
+        elif e["e"] == "send":
+            out.append(["send", e["tmo"] if isinstance(e["tmo"], (int, float)) else -2])
+    # the wrappers may (re)connect at other moments than a plain Client (a pool destroys its client on any
+    # exception, even an input error raised before connecting): compare WHAT is configured, not when --
+    # the timeout in force for I/O, and the timeouts/options used when a connection is established
+    io = sorted({x[1] for x in out if x[0] == "send"})
+    est = sorted({(x[0], x[1]) for x in out if x[0] in ("connect", "opt", "wrap")})
+    return {"io": io, "est": [list(x) for x in est]}
+
+
+def replay_history(kind, hist, variant, extra=None, dn=None, prefix=None, **stackkw):
     """Returns the trace {h, ev} of one history on a fresh stack."""
-    dn = variant % 2 == 0
-    prefix = [b"", b"pfx:"][(variant // 2) % 2]
+    dn = (variant % 2 == 0) if dn is None else dn
+    prefix = [b"", b"pfx:"][(variant // 2) % 2] if prefix is None else prefix
     vclock.set_now(START)
     net, srv, cl = make_stack(kind, default_noreply=dn, key_prefix=prefix, **stackkw)
     out = []
@@ -142,7 +184,12 @@ def replay_history(kind, hist, variant, **stackkw):
             continue
         ev = resolve_dynamic(ev, last_cas)
         net.begin_call(i + 1, None, fakesock_seg(variant + i))
-        res = do_op(cl, ev, dn, variant + i, kind)
+        mark = len(net.log)
+        if ev["op"] in EXTRA_OPS:
+            res = do_extra(cl, ev, kind)
+        else:
+            res = do_op(cl, ev, dn, variant + i, kind)
+        ev = dict(ev, cmds=[canon_cmd(c) for c in net.sent_cmds], conn=conn_info(net.log[mark:]))
         if ev["op"] in ("gets", "gats") and res.get("t") == "pair" and res["b"].get("t") == "cas":
             last_cas[ev["k"]] = res["b"]["n"]
         if ev["op"] == "gets_many" and res.get("t") == "map":
@@ -155,6 +202,36 @@ def replay_history(kind, hist, variant, **stackkw):
     except Exception:
         pass
     return {"h": {"now": START}, "ev": out, "variant": variant, "kind": kind, "net": net}
+
+
+EXTRA_OPS = {"set-strval", "set-intval", "set-ukey", "get-ukey", "set-flags", "touch-kw", "get-many-empty", "gat-kw"}
+
+
+def do_extra(cl, ev, kind):
+    """calls outside the abstract cache's alphabet that exercise configuration options (C16)"""
+    op = ev["op"]
+    try:
+        if op == "set-strval":
+            r = cl.set("sv", "h\xe9llo w\xf6rld", noreply=False)
+        elif op == "set-intval":
+            r = cl.set("iv", 12345, noreply=False)
+        elif op == "set-ukey":
+            r = cl.set("k\xe9\u20ac", b"u", noreply=False)
+        elif op == "get-ukey":
+            r = cl.get("k\xe9\u20ac", DFLT)
+        elif op == "set-flags":
+            r = cl.set("fl", b"x", expire=7, noreply=False, flags=77)
+        elif op == "touch-kw":
+            r = cl.touch("a", expire=3, noreply=False)
+        elif op == "gat-kw":
+            r = cl.gat("a", expire=3, default=DFLT)
+        elif op == "get-many-empty":
+            r = cl.get_many([])
+        else:
+            raise ValueError(op)
+    except Exception as e:   # noqa
+        return {"t": "exc", "x": type(e).__name__}
+    return enc_result(r)
 
 
 def fakesock_seg(n):
